@@ -1,22 +1,41 @@
 """C10 — rejected or interrupted store operations lose and corrupt nothing.
 
+The rules are stated over the CFG (with rejection edges), the resolved call
+graph and the summarised effects of callees, not over the spelling of `add`
+and `merge`: a check may live in `add` or in a helper that `add` calls before
+it changes anything, bookkeeping may be done in place or by a side-effect-free
+helper, the metadata may be written by `merge` or by a helper it calls last, a
+file name may be a literal or a module constant.
+
 R1  validate-before-mutate in TrajectoryStore.add (T-ORDER + effects, decided
     by forward dataflow on the CFG with rejection edges): no store to the
-    store's logical state may still be in effect when a *rejection* leaves the
-    function.  Accepted idioms: the store comes after the last rejection, or
+    store's logical state (directly, or through a bookkeeping helper whose
+    closure touches no file) may still be in effect when a *rejection* leaves
+    the function.  Accepted idioms: the store comes after the last rejection, or
     the path runs through a catch-all handler that restores that attribute
     from a copy saved before the store (or pops the inserted key) and
     re-raises.
-R1b the required-value rejection raised deep in the write path is reachable
-    after earlier fields of the same record were already written to the file;
-    so `add` must perform the same rejection before its first mutation.
-R1c the three documented rejections exist in `add` (write mode, schema,
-    identifier use).
-R2  validate-before-mutate in merge: none of the validation `raise`s of merge
-    / _check_merge_arguments is reachable after a file-system effect.
-R3  metadata.json is written last: every other file-system effect precedes
-    it and none follows it.
-R4  inputs are relocated only by os.rename (zero-expected + positive control).
+R1b a rejection that judges the trajectory's own data (a missing required
+    value: a raise control-dependent on `<field>.required` and a None test) is
+    reachable in the write path after earlier fields of the same record were
+    already written to the file; so the same rejection must have been decided,
+    on every path, before the first mutation, in `add` or in a helper it calls
+    first, and that pre-validation must not walk state that is only populated
+    later in the same call.
+R1c the three documented rejections are decided before the first mutation
+    (write mode, schema, identifier use), recognised by what their conditions
+    read (control dependence + single-definition locals), wherever they live.
+R2  validate-before-mutate in merge: no `raise` of merge, or of a validation
+    helper it calls, is reachable after a file-system effect; no callee that
+    runs after an effect can still refuse the merge's inputs.
+R3  the metadata file (the write-mode open of the `*.json` that readers
+    require) is written last: every other file-system effect precedes it and
+    none follows it, in merge and inside the helper that writes it.
+R4  inputs are relocated only by os.rename (zero-expected + positive control);
+    after the first input has been moved nothing on any path, handlers
+    included, deletes or copies anything.
+R5  a value cached lazily from the container's field definitions is reset
+    wherever those definitions are rebound (the schema check compares it).
 R6  the trajectory cache refuses an eviction before removing anything.
 """
 
@@ -26,12 +45,12 @@ import ast
 
 from ..astutil import first_stmt, last_stmt  # noqa: F401
 from ..astutil import stores_to  # noqa: F401
-from ..astutil import (MUTATING_METHODS, ancestors, call_name, calls_in, guards_of,
-                       names_in, norm, single_def_value, stmt_of, walk_no_nested)
+from ..astutil import (MUTATING_METHODS, ancestors, call_name, calls_in, guards_of, local_defs,
+                       norm, single_def_value, stmt_of, walk_no_nested)
 from ..cfg import CFG
 from ..effects import Effects, fs_effect_of_call
 from ..loader import dotted_name
-from ..resolve import closure, resolve_call
+from ..resolve import closure, resolve_call, self_attr_stores
 
 STORE = 'trajectories/store.py'
 
@@ -56,8 +75,10 @@ def _self_mutations(stmt: ast.stmt):
         tgts = [(t, 'del') for t in stmt.targets]
     for t, how in tgts:
         elts = t.elts if isinstance(t, (ast.Tuple, ast.List)) else [t]
-        for e in elts:
+        for pos, e in enumerate(elts):
             key = None
+            if isinstance(t, (ast.Tuple, ast.List)) and how == 'assign':
+                how = f'assign@{pos}'
             b = e
             if isinstance(b, ast.Subscript):
                 key = norm(b.slice)
@@ -67,6 +88,8 @@ def _self_mutations(stmt: ast.stmt):
                 how2 = how
             if isinstance(b, ast.Attribute) and dotted_name(b.value) == 'self':
                 out.append((b.attr, how2, key))
+            if how.startswith('assign@'):
+                how = 'assign'
     if isinstance(stmt, ast.Expr) and isinstance(stmt.value, ast.Call):
         c = stmt.value
         if isinstance(c.func, ast.Attribute) and c.func.attr in MUTATING_METHODS:
@@ -94,80 +117,305 @@ def _catch_all_reraising_handler(stmt: ast.AST):
     return None
 
 
-def rule_add(ctx):
+def _heads(n):
+    s = n.stmt
+    if s is None or n.kind in ('finally', 'dispatch', 'join', 'except'):
+        return []
+    if n.kind == 'stmt':
+        return [s]
+    if n.kind == 'test':
+        return [s.test]
+    if n.kind == 'iter':
+        return [s.iter]
+    if n.kind == 'with':
+        return [i.context_expr for i in s.items]
+    if n.kind == 'match':
+        return [s.subject]
+    if n.kind == 'case':
+        return [s.guard] if getattr(s, 'guard', None) is not None else []
+    return []
+
+
+# ------------------------------------------------------------------------------------------------------------------
+# what a raise depends on: control dependence + the values its conditions read
+# ------------------------------------------------------------------------------------------------------------------
+
+class Conditions:
+    """conditions a statement of fn is control-dependent on (transitively, inside fn): syntactic guards plus the
+    CFG's control dependence (guard clauses with `continue` / early `return`), and what those conditions read"""
+
+    def __init__(self, fn):
+        self.fn = fn
+        self.g = CFG(fn.node)
+
+        def eo(a, b, lab):
+            return lab != 'e' or isinstance(self.g.nodes[a].stmt, ast.Raise)
+        self.pdom = self.g.postdominators([self.g.exit, self.g.raise_exit], edge_ok=eo)
+        self._eo = eo
+
+    def _only_raises(self, nid) -> bool:
+        """every path from nid ends in the exceptional exit"""
+        g = self.g
+        k = ('or', nid)
+        if k not in self.__dict__.setdefault('_memo', {}):
+            seen, st, ok = {nid}, [nid], True
+            while st and ok:
+                x = st.pop()
+                if x == g.exit:
+                    ok = False
+                for y, lab in g.succ[x]:
+                    if not self._eo(x, y, lab):
+                        continue
+                    if y not in seen:
+                        seen.add(y)
+                        st.append(y)
+            self._memo[k] = ok
+        return self._memo[k]
+
+    def controlling(self, stmt) -> list[tuple[ast.expr, bool]]:
+        """path conditions of stmt: the branch edges every path from the function's entry to stmt runs through
+        (edge dominance; covers nested ifs, guard clauses with `continue` / early `return`, loop heads), without the
+        conditions of earlier rejections (`if c: raise …` makes everything after it depend on `not c`)"""
+        g = self.g
+        out = []
+        targets = set(g.nodes_of(stmt))
+        live = self.g._reach(self._eo)
+        if not targets or not (targets & live):
+            # a statement inside a handler (reached over exceptional edges only): its syntactic guards
+            return [(t, pol, o) for t, pol, o in guards_of(stmt)]
+        for t in g.nodes:
+            if t.kind not in ('test', 'iter') or t.id in targets:
+                continue
+            for b, lab in g.succ[t.id]:
+                if lab not in ('t', 'f'):
+                    continue
+                # is some target reachable from the entry without using the edge t -> b ?
+                seen, st, hit = {g.entry}, [g.entry], False
+                while st and not hit:
+                    x = st.pop()
+                    for y, l2 in g.succ[x]:
+                        if (x == t.id and y == b and l2 == lab) or not self._eo(x, y, l2):
+                            continue
+                        if y in targets:
+                            hit = True
+                            break
+                        if y not in seen:
+                            seen.add(y)
+                            st.append(y)
+                if hit:
+                    continue
+                others = [b2 for b2, l2 in g.succ[t.id] if l2 in ('t', 'f') and b2 != b]
+                if others and all(self._only_raises(o) for o in others) and not any(t.stmt is a for a in ancestors(stmt)):
+                    continue
+                if t.kind == 'test':
+                    out.append((t.stmt.test, lab == 't', t.stmt))
+                elif lab == 't':
+                    out.append((t.stmt.iter, None, t.stmt))
+        # conditional expressions / short circuits around the statement itself
+        for t, pol, o in guards_of(stmt):
+            if not any(t is x for x, _, _ in out):
+                out.append((t, pol, o))
+        return out
+
+    def reads(self, stmt) -> dict:
+        """what the conditions of stmt read, single-definition locals resolved"""
+        fn = self.fn
+        exprs = [t for t, _, _ in self.controlling(stmt)]
+        seen_names = set()
+        i = 0
+        while i < len(exprs) and i < 60:
+            for x in ast.walk(exprs[i]):
+                if isinstance(x, ast.Name) and x.id not in seen_names:
+                    seen_names.add(x.id)
+                    v = single_def_value(fn.node, x.id)
+                    if v is not None:
+                        exprs.append(v)
+                    else:
+                        # a loop target: what it iterates over
+                        for d in local_defs(fn.node, x.id):
+                            if isinstance(d, (ast.For, ast.AsyncFor)):
+                                exprs.append(d.iter)
+            i += 1
+        r = {'attrs': set(), 'self_attrs': set(), 'consts': set(), 'none_test': False, 'hash_cmp': False, 'names': seen_names,
+             'calls': set()}
+        for e in exprs:
+            for x in ast.walk(e):
+                if isinstance(x, ast.Attribute):
+                    (r['self_attrs'] if dotted_name(x.value) == 'self' else r['attrs']).add(x.attr)
+                elif isinstance(x, ast.Constant) and isinstance(x.value, str):
+                    r['consts'].add(x.value)
+                elif isinstance(x, ast.Call):
+                    r['calls'].add(call_name(x))
+                elif isinstance(x, ast.Compare):
+                    sides = [x.left] + list(x.comparators)
+                    if any(isinstance(s, ast.Constant) and s.value is None for s in sides):
+                        r['none_test'] = True
+                    hs = [s for s in sides if isinstance(s, ast.Call) and (call_name(s) == 'hash' or call_name(s).endswith('.__hash__'))]
+                    if len(hs) >= 2:
+                        r['hash_cmp'] = True
+        return r
+
+
+def _is_required_value_rejection(rd: dict) -> bool:
+    return 'required' in rd['attrs'] and rd['none_test']
+
+
+# ------------------------------------------------------------------------------------------------------------------
+
+def rule_add(ctx, fn=None, as_host=False):
+    """fn: the function whose CFG carries the mutations (add itself, or - when add was split - the method it hands
+    the validated trajectory to; that one is analysed on its own (as_host) and its call is a mutation of add)"""
     prog = ctx.prog
     m = prog.module(STORE)
     add = m.func('TrajectoryStore.add')
+    if fn is None:
+        fn = add
     eff = Effects(prog)
-    g = CFG(add.node)
+    g = CFG(fn.node)
+
+    def normal(a, b, lab):
+        return lab != 'e'
+
+    # bookkeeping helpers: methods of the class whose closure touches no file; their stores to self are add's own
+    def bookkeeping(callee):
+        if callee is None or callee.cls is None or callee.cls is not fn.cls and not fn.cls.is_subclass_of(callee.cls.name):
+            return None
+        if eff.fs_effects(callee):
+            return None
+        fns = [f for f in closure(prog, [callee]) if f.cls is callee.cls]
+        if any(c for f in fns for c in calls_in(f.node)
+               if call_name(c).split('.')[0] in ('nc4', 'netCDF4') or fs_effect_of_call(c)):
+            return None
+        return [(attr, how, None) for f in fns for attr, st, how in self_attr_stores(f)]
 
     # classify nodes
     rejections: dict[int, str] = {}
+    call_nodes: dict[int, list] = {}
     for n in g.nodes:
         if n.stmt is None or n.kind in ('finally', 'dispatch', 'join', 'except'):
             continue
         if n.kind == 'stmt' and isinstance(n.stmt, ast.Raise):
             rejections[n.id] = 'raise'
             continue
-        exprs = []
-        s = n.stmt
-        if n.kind == 'stmt':
-            exprs = [s]
-        elif n.kind == 'test':
-            exprs = [s.test]
-        elif n.kind == 'iter':
-            exprs = [s.iter]
-        elif n.kind == 'with':
-            exprs = [i.context_expr for i in s.items]
-        elif n.kind == 'match':
-            exprs = [s.subject]
-        for e in exprs:
+        for e in _heads(n):
             for c in calls_in(e):
-                rs = eff.call_raises(add, c)
+                callee = resolve_call(prog, fn, c)
+                if callee is not None:
+                    call_nodes.setdefault(n.id, []).append((c, callee))
+                rs = eff.call_raises(fn, c)
                 if rs:
                     rejections[n.id] = f'call {call_name(c)} (may reject: {len(rs)} explicit raise(s) in its closure)'
-    ctx.floor('C10-R1/rejections', len(rejections), 4, 'rejection points in add')
+    ctx.floor('C10-R1/rejections' + ('/host' if as_host else ''), len(rejections), 2 if as_host else 4, f'rejection points in {fn.name}')
 
     muts: dict[int, list] = {}
     restores: dict[int, list] = {}
+    helper_restores: dict[int, list] = {}
     for n in g.nodes:
         if n.kind != 'stmt' or n.stmt is None:
             continue
         ms = _self_mutations(n.stmt)
+        via_helper = False
+        if not ms and isinstance(n.stmt, (ast.Expr, ast.Assign, ast.Return)) and isinstance(n.stmt.value, ast.Call):
+            callee = resolve_call(prog, fn, n.stmt.value)
+            on_self = isinstance(n.stmt.value.func, ast.Attribute) and dotted_name(n.stmt.value.func.value) == 'self'
+            hm = bookkeeping(callee) if on_self else None
+            if hm:
+                ms = [(a, 'helper-' + how, None) for a, how, _ in hm]
+                via_helper = (n.stmt.value, callee)
+            elif on_self and not as_host and callee is not None and callee.cls is fn.cls and callee != fn:
+                # the function was split: a method that itself commits (and rolls back) the bookkeeping
+                own = [x for st2 in walk_no_nested(callee.node) if isinstance(st2, ast.stmt) and not _catch_all_reraising_handler(st2)
+                       for x in _self_mutations(st2) if x[0] not in NOT_CONTENT]
+                if len(own) >= 3:
+                    rule_add(ctx, fn=callee, as_host=True)
+                    ms = [(a, 'split-' + how, None) for a, how, _ in own]
         if not ms:
             continue
         h = _catch_all_reraising_handler(n.stmt)
         if h is not None:
             restores[n.id] = ms
+            if via_helper:
+                helper_restores[n.id] = via_helper
         else:
             muts[n.id] = ms
     content_muts = {nid: [x for x in ms if x[0] not in NOT_CONTENT] for nid, ms in muts.items()}
     content_muts = {k: v for k, v in content_muts.items() if v}
-    ctx.floor('C10-R1', sum(len(v) for v in content_muts.values()), 3,
-              'stores to logical state in add')
+    ctx.floor('C10-R1' + ('/host' if as_host else ''), sum(len(v) for v in content_muts.values()), 3,
+              f'stores to logical state in {fn.name}')
+
+    dom = g.dominators(edge_ok=normal)
+
+    def saved_copy_of(name: str, attr: str):
+        """the binding `name = self.attr` when it is taken before every mutation of attr, else a reason"""
+        d = single_def_value(fn.node, name)
+        if d is None:
+            from ..astutil import tuple_def_component
+            tc = tuple_def_component(fn.node, name)
+            if tc is not None and isinstance(tc[0], (ast.Tuple, ast.List)) and tc[1] < len(tc[0].elts):
+                d = tc[0].elts[tc[1]]
+        if d is None or not (isinstance(d, ast.Attribute) and d.attr == attr and dotted_name(d.value) == 'self'):
+            return None, f'{name} is not a copy of self.{attr} saved before the store'
+        dnode = g.nodes_of(stmt_of(d))
+        for mid, ms in content_muts.items():
+            if any(a == attr for a, _, _ in ms):
+                if not dnode or dnode[0] not in dom.get(mid, set()):
+                    return None, f'saved copy {name} is not taken before the store at line {int(g.nodes[mid].line)}'
+        return d, f'restored from {name} = self.{attr} saved before the store'
 
     # validate that a restore really restores the pre-state
     def restore_valid(nid, attr, how, key) -> tuple[bool, str]:
         st = g.nodes[nid].stmt
+        if how.startswith('helper-'):
+            c, callee = helper_restores[nid]
+            # the helper stores a parameter into the attribute; the argument must be a saved copy
+            for f in closure(prog, [callee]):
+                for a2, st2, how2 in self_attr_stores(f):
+                    if a2 != attr:
+                        continue
+                    v = getattr(st2, 'value', None)
+                    if how2 == 'assign' and isinstance(v, ast.Name) and v.id in callee.params:
+                        idx = callee.params.index(v.id) - 1
+                        arg = c.args[idx] if 0 <= idx < len(c.args) else next((k.value for k in c.keywords if k.arg == v.id), None)
+                        if isinstance(arg, ast.Name):
+                            d, why = saved_copy_of(arg.id, attr)
+                            return d is not None, why + f' (through {callee.qualname})'
+                    if how2 in ('call-pop', 'elem-del', 'call-discard', 'call-remove'):
+                        return True, f'inserted key removed again (through {callee.qualname})'
+            return False, f'{callee.qualname} does not put a saved copy back into self.{attr}'
+        if how.startswith('assign@') or how.startswith('elem-assign@'):
+            # self.a, self.b = saved_a, saved_b   /   self.a, self.b = saved  (saved = (self.a, self.b))
+            pos = int(how.split('@')[1])
+            v = st.value
+            if isinstance(v, ast.Name):
+                d0 = single_def_value(fn.node, v.id)
+                if isinstance(d0, (ast.Tuple, ast.List)) and pos < len(d0.elts):
+                    el = d0.elts[pos]
+                    if isinstance(el, ast.Attribute) and el.attr == attr and dotted_name(el.value) == 'self':
+                        dnode = g.nodes_of(stmt_of(d0))
+                        for mid, ms in content_muts.items():
+                            if any(a == attr for a, _, _ in ms) and (not dnode or dnode[0] not in dom.get(mid, set())):
+                                return False, f'saved copy {v.id} is not taken before the store at line {int(g.nodes[mid].line)}'
+                        return True, f'restored from {v.id}[{pos}] = self.{attr} saved before the store'
+                return False, f'{v.id}[{pos}] is not a copy of self.{attr} saved before the store'
+            if isinstance(v, (ast.Tuple, ast.List)) and pos < len(v.elts) and isinstance(v.elts[pos], ast.Name):
+                d, why = saved_copy_of(v.elts[pos].id, attr)
+                return d is not None, why
+            return False, f'value restored into self.{attr} is not a copy saved before the store'
         if how in ('assign',):
             v = st.value
             if isinstance(v, ast.Name):
-                d = single_def_value(add.node, v.id)
-                if d is not None and isinstance(d, ast.Attribute) and d.attr == attr \
-                        and dotted_name(d.value) == 'self':
-                    # saved copy must be taken before every mutation of attr
-                    dnode = g.nodes_of(stmt_of(d))
-                    dom = g.dominators(edge_ok=lambda a, b, lab: lab != 'e')
-                    for mid, ms in content_muts.items():
-                        if any(a == attr for a, _, _ in ms):
-                            if not dnode or dnode[0] not in dom.get(mid, set()):
-                                return False, f'saved copy {v.id} is not taken before the store at line {g.nodes[mid].line}'
-                    return True, f'restored from {v.id} = self.{attr} saved before the store'
+                d, why = saved_copy_of(v.id, attr)
+                return d is not None, why
             return False, f'value restored into self.{attr} is not a copy saved before the store'
         if how in ('call-pop', 'elem-del', 'call-discard', 'call-remove'):
             ins_keys = {k for mid, ms in content_muts.items() for a, h2, k in ms
                         if a == attr and h2.startswith('elem-')}
-            if key in ins_keys or not ins_keys:
+            if key in ins_keys or not ins_keys or None in ins_keys:
+                return True, f'inserted key {key} removed again'
+            # the same value under another name
+            kd = single_def_value(fn.node, key) if key and key.isidentifier() else None
+            if any(single_def_value(fn.node, k) is not None and kd is not None and
+                   norm(single_def_value(fn.node, k)) == norm(kd) for k in ins_keys if k and k.isidentifier()):
                 return True, f'inserted key {key} removed again'
             return False, f'removes key {key}, but the insertion used {sorted(ins_keys)}'
         return False, f'unrecognised restore form {how}'
@@ -178,7 +426,7 @@ def rule_add(ctx):
             ok, why = restore_valid(nid, attr, how, key)
             if ok:
                 valid_restores.setdefault(nid, set()).add(attr)
-            ctx.ob('C10-R1', add, f'restore of self.{attr} in handler: {norm(g.nodes[nid].stmt)}',
+            ctx.ob('C10-R1', fn, f'restore of self.{attr} in handler: {norm(g.nodes[nid].stmt)}',
                    ok, why, line=g.nodes[nid].line)
 
     def edge_ok(a, b, lab):
@@ -205,105 +453,140 @@ def rule_add(ctx):
                 p = g.find_path(nid, g.raise_exit,
                                 edge_ok=lambda a, b, lab: edge_ok(a, b, lab) and b not in kill)
                 if p:
-                    path = [f'L{g.nodes[x].line}: {g.nodes[x].text()[:90]}' +
+                    path = [f'L{int(g.nodes[x].line)}: {g.nodes[x].text()[:90]}' +
                             (f'   <-- rejection: {rejections[x]}' if x in rejections else '')
                             for x in p if g.nodes[x].stmt is not None or x == g.raise_exit]
-            ctx.ob('C10-R1', add, f'store to self.{attr} ({how}) survives no rejection', not bad,
+            ctx.ob('C10-R1', fn, f'store to self.{attr} ({how}) survives no rejection', not bad,
                    ('every rejection reachable after this store passes a handler that restores it '
                     'and re-raises, or no rejection follows it') if not bad else
-                   (f'self.{attr} is committed at line {g.nodes[nid].line} and a rejection after it '
+                   (f'self.{attr} is committed at line {int(g.nodes[nid].line)} and a rejection after it '
                     'leaves add() without restoring it: a rejected addition changes the store'),
                    line=g.nodes[nid].line, path=path)
+    if as_host:
+        return
     for attr, why in NOT_CONTENT.items():
         ctx.note(f'C10-R1: self.{attr} excluded from logical state — {why}')
 
-    # R1b: required-value rejection in the write path vs. pre-validation in add
-    write_raises = []
-    for fn in closure(prog, [m.func('TrajectoryStore._write_trajectory')]):
-        for n in walk_no_nested(fn.node):
-            if isinstance(n, ast.Raise):
-                gs = guards_of(n)
-                txt = ' '.join(norm(x) for x, _, _ in gs)
-                if 'required' in txt:
-                    write_raises.append((fn, n, txt))
-    if write_raises:
-        # file writes in the same closure (element stores on netCDF variables)
-        pre = None
-        first_mut_line = min((g.nodes[k].line for k in content_muts), default=None)
-        dom = g.dominators(edge_ok=lambda a, b, lab: lab != 'e')
-        first_mut = min(content_muts, key=lambda k: g.nodes[k].line) if content_muts else None
-        for n in g.nodes:
-            if n.kind == 'stmt' and isinstance(n.stmt, ast.Raise):
-                gs = guards_of(n.stmt)
-                txt = ' '.join(norm(x) for x, _, _ in gs)
-                if 'required' in txt and 'None' in txt:
-                    # the guard test must dominate the first mutation (it is evaluated first)
-                    # (the check may sit in a loop over the fields: the loop head
-                    # is what is evaluated on every path)
-                    test_nodes = [t for a in ancestors(n.stmt) if isinstance(a, ast.stmt)
-                                  for t in g.nodes_of(a)]
-                    if first_mut is None or any(t in dom.get(first_mut, set()) for t in test_nodes):
-                        pre = n
-        fn, rn, txt = write_raises[0]
+    # ---- where rejections are decided: before the first mutation (early) or after it (late) ---------------------------
+    mut_ids = set(content_muts)
+
+    def after_mutation(nid) -> bool:
+        return nid in mut_ids or any(g.reaches(mid, nid, edge_ok=normal) for mid in mut_ids)
+
+    def before_every_mutation(nids) -> bool:
+        """some node of nids is executed on every path to every mutation"""
+        return all(any(t in dom.get(mid, set()) for t in nids) for mid in mut_ids) if mut_ids else True
+
+    conds = {}
+
+    def cond_of(fn):
+        k = (fn.file, fn.qualname)
+        if k not in conds:
+            conds[k] = Conditions(fn)
+        return conds[k]
+
+    early, late = [], []     # (function, raise stmt, reads, anchor nodes in add, call text)
+    for n in g.nodes:
+        if n.kind == 'stmt' and isinstance(n.stmt, ast.Raise) and not _catch_all_reraising_handler(n.stmt):
+            rd = cond_of(add).reads(n.stmt)
+            anchors = [t for a in ancestors(n.stmt) if isinstance(a, ast.stmt) for t in g.nodes_of(a)]
+            (late if after_mutation(n.id) else early).append((add, n.stmt, rd, anchors, None))
+    for nid, cs in call_nodes.items():
+        is_late = after_mutation(nid)
+        for c, callee in cs:
+            for fn in closure(prog, [callee]):
+                if not fn.file.endswith(STORE):
+                    continue
+                for r in walk_no_nested(fn.node):
+                    if isinstance(r, ast.Raise) and r.exc is not None:
+                        rd = cond_of(fn).reads(r)
+                        (late if is_late else early).append((fn, r, rd, [nid], call_name(c)))
+
+    # R1b: required-value rejection in the write path vs. pre-validation before the first mutation
+    late_req = [x for x in late if _is_required_value_rejection(x[2])]
+    early_req = [x for x in early if _is_required_value_rejection(x[2])]
+    if late_req:
+        fn, rn = late_req[0][0], late_req[0][1]
+        pre = next((x for x in early_req if before_every_mutation(x[3])), None)
         ctx.ob('C10-R1b', add, 'required-value rejection is repeated before the first mutation',
                pre is not None,
-               (f'pre-validation raise at line {pre.line} guards on required/None before any store '
+               (f'pre-validation raise at line {pre[1].lineno} ({pre[0].qualname}) judges required/None before any store '
                 f'(write-path rejection: {fn.qualname} line {rn.lineno})') if pre is not None else
-               (f'{fn.qualname} (line {rn.lineno}) rejects a missing required value only after '
-                'earlier fields of the record were already written to the file and the trajectory '
-                'dimension has grown; add() has no equivalent check before its first mutation, so '
-                'a reopen shows a half-written record'),
-               line=(pre.line if pre is not None else rn.lineno))
+               ((f'{fn.qualname} (line {rn.lineno}) rejects a missing required value only after '
+                 'earlier fields of the record were already written to the file and the trajectory '
+                 'dimension has grown; add() has no equivalent check before its first mutation, so '
+                 'a reopen shows a half-written record') if fn is not add else
+                (f'the missing-required-value rejection (line {rn.lineno}) is decided after add() has already changed the store '
+                 f'(first change at line {min(g.nodes[k].line for k in mut_ids)}): it is no longer a check made before the '
+                 'first mutation')),
+               line=(pre[1].lineno if pre is not None else rn.lineno))
         if pre is not None:
             # the pre-validation must not walk state that is only populated later in this very call
-            from ..resolve import self_attr_stores
-            reads = set()
-            for a in ancestors(pre.stmt):
-                if isinstance(a, ast.For):
-                    reads |= {x.attr for x in ast.walk(a.iter) if isinstance(x, ast.Attribute) and norm(x.value) == 'self'}
-            for t, pol, _ in guards_of(pre.stmt):
-                reads |= {x.attr for x in ast.walk(t) if isinstance(x, ast.Attribute) and norm(x.value) == 'self'}
+            pfn, pr, prd, panchors, _ = pre
+            reads = set(prd['self_attrs'])
             later = {}
-            for c in calls_in(add.node):
-                if c.lineno > pre.line:
-                    callee = resolve_call(prog, add, c)
-                    if callee is not None and callee.cls is add.cls:
+            for nid, cs in call_nodes.items():
+                if not any(g.reaches(a, nid, edge_ok=normal) for a in panchors) and not after_mutation(nid):
+                    continue
+                for c, callee in cs:
+                    if callee.cls is add.cls and nid not in panchors:
                         for fn2 in closure(prog, [callee]):
                             if fn2.cls is add.cls:
                                 for attr, st, how in self_attr_stores(fn2):
                                     later.setdefault(attr, fn2.qualname)
+            for mid, ms in content_muts.items():
+                for a_, _, _ in ms:
+                    later.setdefault(a_, f'add itself (line {int(g.nodes[mid].line)})')
             stale = sorted(reads & set(later))
             ctx.ob('C10-R1b', add, f'pre-validation reads {sorted(reads) or "only the argument"}', not stale,
                    'the check depends only on the trajectory being added (and state that exists before the call)'
                    if not stale else
                    (f'the pre-validation walks self.{stale[0]}, which is only populated by {later[stale[0]]} later in '
                     'the same call: for the first addition to a new store the check is empty, the record is '
-                    'half-written and the files keep it'), line=pre.line)
+                    'half-written and the files keep it'), line=pr.lineno)
     else:
         ctx.note('C10-R1b: no required-value rejection left in the write path')
 
-    # R1c: documented rejections exist
-    def has_raise_guarded(pred, what):
-        for n in g.nodes:
-            if n.kind == 'stmt' and isinstance(n.stmt, ast.Raise):
-                gs = guards_of(n.stmt)
-                if any(pred(x) for x, _, _ in gs):
-                    return n
-        return None
-
+    # R1c: documented rejections are decided before the first mutation
     checks = [
-        ('write mode', lambda e: '_write_enabled' in norm(e)),
-        ('same data fields (schema)', lambda e: 'hash(' in norm(e)),
-        ('identifier use consistent', lambda e: 'indexable' in norm(e) and 'has_flight_id' in norm(e)),
+        ('write mode', lambda rd: bool(rd['self_attrs'] & {'_write_enabled', 'mode'})),
+        ('same data fields (schema)', lambda rd: rd['hash_cmp'] or '_data_dictionary' in rd['attrs'] and '_trajectories' in rd['self_attrs']),
+        ('identifier use consistent', lambda rd: 'indexable' in rd['self_attrs'] and ('flight_id' in rd['attrs'] or 'flight_id' in rd['consts'])),
     ]
     for what, pred in checks:
-        n = has_raise_guarded(pred, what)
-        ctx.ob('C10-R1c', add, f'rejection present: {what}', n is not None,
-               f'raise at line {n.line}' if n is not None else
-               f'add() no longer refuses: {what}', line=(n.line if n else add.node.lineno),
+        hit = next((x for x in early if pred(x[2])), None)
+        ctx.ob('C10-R1c', add, f'rejection present: {what}', hit is not None,
+               f'raise at line {hit[1].lineno} ({hit[0].qualname})' if hit is not None else
+               f'add() no longer refuses before it changes the store: {what}', line=(hit[1].lineno if hit else add.node.lineno),
                nontrivial=False)
     ctx.stats['add_cfg_nodes'] = len(g.nodes)
     ctx.stats['add_rejection_points'] = {g.nodes[k].line: v for k, v in rejections.items()}
+    ctx.stats['add_rejections_before_first_mutation'] = len(early)
+    ctx.stats['add_rejections_after_first_mutation'] = len(late)
+
+
+# ------------------------------------------------------------------------------------------------------------------
+
+def _const_strings(prog, fn, e, depth=0) -> list[str]:
+    """string constants an expression is built from: literals, module constants, single-definition locals"""
+    out = []
+    for x in ast.walk(e):
+        if isinstance(x, ast.Constant) and isinstance(x.value, str):
+            out.append(x.value)
+        elif isinstance(x, ast.Name) and depth < 3:
+            v = single_def_value(fn.node, x.id)
+            if v is not None:
+                out += _const_strings(prog, fn, v, depth + 1)
+                continue
+            r = prog.resolve_name(fn.module, x.id)
+            if isinstance(r, tuple) and r[0] == 'const':
+                out += _const_strings(prog, fn, r[1].constants[r[2]], depth + 1)
+    return out
+
+
+DELETES = {'os.remove', 'os.unlink', 'shutil.rmtree', 'os.rmdir', 'os.removedirs'}
+COPIES = {'shutil.copy', 'shutil.copy2', 'shutil.copyfile', 'shutil.move', 'shutil.copytree'}
+DELETE_METHODS = {'unlink', 'rmdir'}
 
 
 def rule_merge(ctx):
@@ -313,50 +596,73 @@ def rule_merge(ctx):
     eff = Effects(prog)
     g = CFG(merge.node)
 
+    def normal(a, b, lab):
+        return lab != 'e'
+
+    def is_meta_open(fn, c) -> bool:
+        e = fs_effect_of_call(c)
+        if e and e.startswith('open('):
+            return any(s.endswith('.json') for s in _const_strings(prog, fn, c.args[0] if c.args else c))
+        if e in ('.write_text', '.write_bytes') or (isinstance(c.func, ast.Attribute) and c.func.attr == 'open' and e):
+            return any(s.endswith('.json') for s in _const_strings(prog, fn, c.func.value))
+        return False
+
+    def meta_in(fn) -> list:
+        return [(f, c) for f in closure(prog, [fn]) for c in calls_in(f.node) if is_meta_open(f, c)]
+
     fs_nodes: dict[int, list[str]] = {}
     validation: dict[int, str] = {}
     meta_node = None
+    meta_helper = None
+    validators = []
     for n in g.nodes:
         if n.stmt is None or n.kind in ('finally', 'dispatch', 'join', 'except'):
             continue
         s = n.stmt
-        exprs = {'stmt': [s], 'test': [getattr(s, 'test', None)], 'iter': [getattr(s, 'iter', None)],
-                 'with': [i.context_expr for i in getattr(s, 'items', [])],
-                 'match': [getattr(s, 'subject', None)]}.get(n.kind, [])
         if n.kind == 'stmt' and isinstance(s, ast.Raise):
+            if s.exc is None and any(isinstance(a, ast.ExceptHandler) for a in ancestors(s)):
+                continue   # passing on a failure is not a refusal of the arguments
             validation[n.id] = 'raise ' + norm(s.exc)[:70] if s.exc else 'raise'
             continue
-        for e in exprs:
+        for e in _heads(n):
             if e is None:
                 continue
             for c in calls_in(e):
                 effs = eff.call_fs(merge, c)
+                callee = resolve_call(prog, merge, c)
                 if effs:
                     fs_nodes.setdefault(n.id, []).extend(effs)
-                    if any('metadata.json' in norm(a) for a in ast.walk(c) if isinstance(a, ast.Constant)):
+                    if is_meta_open(merge, c):
                         meta_node = n.id
-                callee = resolve_call(prog, merge, c)
-                if callee is not None and callee.qualname.endswith('_check_merge_arguments'):
+                    elif callee is not None and meta_in(callee):
+                        meta_node, meta_helper = n.id, callee
+                    elif callee is not None and any('open(' in e_ or 'write_text' in e_ for e_ in effs) and \
+                            any(s_.endswith('.json') for s_ in _const_strings(prog, merge, c)):
+                        # the helper opens a path it is handed; the caller names the file
+                        meta_node, meta_helper = n.id, callee
+                elif callee is not None and callee.file.endswith(STORE) and eff.explicit_raises(callee) \
+                        and callee.name not in ('__init__', 'open', 'create', 'append'):
+                    # a helper that only judges: a validation step
                     validation[n.id] = f'call {callee.qualname} ({len(eff.explicit_raises(callee))} raises)'
+                    validators.append(callee)
     n_rules = sum(1 for v in validation.values() if v.startswith('raise'))
-    chk = m.func('TrajectoryStore._check_merge_arguments')
-    n_rules += len(eff.explicit_raises(chk))
-    # refusals hidden in callees: an explicit raise (other than in the argument check) in the closure of a call that a
-    # file-system effect can precede is a refusal after the fact
+    for chk in validators:
+        n_rules += len(eff.explicit_raises(chk))
+    # refusals hidden in callees: an explicit raise in the closure of a call that a file-system effect can precede is a
+    # refusal after the fact
     n_late = 0
     for n in g.nodes:
         if n.stmt is None or n.kind in ('finally', 'dispatch', 'join', 'except'):
             continue
-        prior = [f for f in fs_nodes if f != n.id and g.reaches(f, n.id, edge_ok=lambda a, b, lab: lab != 'e')]
-        if not prior:
+        prior = [f for f in fs_nodes if f != n.id and g.reaches(f, n.id, edge_ok=normal)]
+        if not prior or n.id in validation:
             continue
-        heads_ = [n.stmt] if n.kind == 'stmt' else [getattr(n.stmt, 'test', None), getattr(n.stmt, 'iter', None)]
-        for e in heads_:
+        for e in _heads(n):
             if e is None:
                 continue
             for c in calls_in(e):
                 callee = resolve_call(prog, merge, c)
-                if callee is None or callee.qualname.endswith('_check_merge_arguments'):
+                if callee is None:
                     continue
                 for h, r in eff.explicit_raises(callee):
                     if not h.file.endswith(STORE) or r.exc is None:
@@ -364,8 +670,6 @@ def rule_merge(ctx):
                     exc = norm(r.exc)
                     if not exc.startswith(('ValueError', 'TypeError', 'RuntimeError', 'KeyError')):
                         continue
-                    # only refusals that judge the *inputs* of the merge (reachable without any prior effect of the callee
-                    # itself failing): report each once
                     n_late += 1
                     ctx.ob('C10-R2', merge, f'{callee.name}(…) can refuse with `{exc[:60]}` (in {h.name}, line {r.lineno})', False,
                            (f'this refusal can only be reached after {fs_nodes[prior[0]][0]} (line {g.nodes[prior[0]].line}) has '
@@ -374,117 +678,186 @@ def rule_merge(ctx):
     ctx.ob('C10-R2', merge, f'{n_late} refusal(s) reachable only after a file-system effect', n_late == 0,
            'every explicit refusal of the merge is decided before the first effect' if n_late == 0 else 'see above', nontrivial=False)
     ctx.floor('C10-R2', n_rules, 8, 'merge validation rules')
-    ctx.floor('C10-R2/fs', len(fs_nodes), 4, 'file-system effect sites in merge')
+    ctx.floor('C10-R2/fs', sum(len(set(v)) for v in fs_nodes.values()), 4, 'file-system effects in merge')
 
     for vid, vwhat in sorted(validation.items()):
-        offenders = [f for f in fs_nodes if g.reaches(f, vid, edge_ok=lambda a, b, lab: lab != 'e')]
+        offenders = [f for f in fs_nodes if g.reaches(f, vid, edge_ok=normal)]
         ok = not offenders
         path = []
         if offenders:
             f = offenders[0]
-            p = g.find_path(f, vid, edge_ok=lambda a, b, lab: lab != 'e') or []
-            path = [f'L{g.nodes[x].line}: {g.nodes[x].text()[:90]}' for x in p if g.nodes[x].stmt is not None]
+            p = g.find_path(f, vid, edge_ok=normal) or []
+            path = [f'L{int(g.nodes[x].line)}: {g.nodes[x].text()[:90]}' for x in p if g.nodes[x].stmt is not None]
         ctx.ob('C10-R2', merge, f'validation [{vwhat}] precedes every file-system effect', ok,
                'no file-system effect can run before this refusal' if ok else
                (f'file-system effect {fs_nodes[offenders[0]][0]} at line {g.nodes[offenders[0]].line} '
-                f'runs before this refusal (line {g.nodes[vid].line}): a refused merge leaves '
+                f'runs before this refusal (line {int(g.nodes[vid].line)}): a refused merge leaves '
                 'something behind and the corrected retry fails'),
                line=g.nodes[vid].line, path=path)
 
-    # the callee's own raises must not follow an fs effect inside the callee either
-    gc = CFG(chk.node)
-    for n in gc.nodes:
-        if n.stmt is not None and n.kind == 'stmt':
-            for c in calls_in(n.stmt):
-                if fs_effect_of_call(c):
-                    ctx.ob('C10-R2', chk, f'no file-system effect in validation: {call_name(c)}', False,
-                           'the argument check itself touches the file system', line=n.line)
-
     # R3 metadata last
     if meta_node is None:
-        ctx.undecided('C10-R3', merge, 'metadata.json write',
-                      'no write-mode open of metadata.json found in merge')
+        ctx.undecided('C10-R3', merge, 'metadata write',
+                      'no write-mode open of a *.json file found in merge or in a helper it calls')
     for f, effs in sorted(fs_nodes.items()):
         if f == meta_node:
             continue
-        after = g.reaches(meta_node, f, edge_ok=lambda a, b, lab: lab != 'e')
-        before = g.reaches(f, meta_node, edge_ok=lambda a, b, lab: lab != 'e')
+        after = g.reaches(meta_node, f, edge_ok=normal)
+        before = g.reaches(f, meta_node, edge_ok=normal)
         ok = before and not after
-        ctx.ob('C10-R3', merge, f'{effs[0]} happens before metadata.json is written', ok,
+        ctx.ob('C10-R3', merge, f'{effs[0]} happens before the metadata file is written', ok,
                'precedes the metadata write on every path and cannot follow it' if ok else
-               ('this step can run after metadata.json announced the store complete'
+               ('this step can run after the metadata file announced the store complete'
                 if after else 'this step does not lead to the metadata write'),
                line=g.nodes[f].line)
-    # everything inside the `with open(metadata)` body is only the dump
-    wstmt = g.nodes[meta_node].stmt
-    if isinstance(wstmt, ast.With):
-        inner_calls = [call_name(c) for s in wstmt.body for c in calls_in(s)]
-        ok = all(c in ('json.dump', 'f.write', 'json.dumps') for c in inner_calls)
-        ctx.ob('C10-R3', merge, f'metadata body only serialises: {inner_calls}', ok,
-               'only json.dump inside the metadata write' if ok else
-               'other work happens while metadata.json is open', line=wstmt.lineno, nontrivial=False)
+    # a step that failed must not be followed by the metadata write: no handler may swallow its failure and go on
+    for f, effs in sorted(fs_nodes.items()):
+        if f == meta_node:
+            continue
+        swallowed = [b for b, lab in g.succ[f] if lab == 'e' and (b == meta_node or g.reaches(b, meta_node))]
+        if swallowed:
+            ctx.ob('C10-R3', merge, f'a failure of {effs[0]} cannot be followed by the metadata write', False,
+                   'an exception raised by this step is caught and the merge goes on to write the metadata file: the merged '
+                   'directory announces itself as complete although this part is missing or half-written', line=g.nodes[f].line)
+    # inside the function that opens the metadata file: the open is its last effect, the body only serialises
+    mfn = merge
+    handed = False
+    if meta_helper is not None:
+        inside = meta_in(meta_helper)
+        if inside:
+            mfn = inside[0][0]
+        else:
+            handed = True
+            mfn = next((f for f in closure(prog, [meta_helper]) for c in calls_in(f.node)
+                        if (fs_effect_of_call(c) or '').startswith(('open(', '.write_text'))), meta_helper)
+    gm = g if mfn is merge else CFG(mfn.node)
 
-    # R4 relocation by rename only
-    banned = {'shutil.copy', 'shutil.copy2', 'shutil.copyfile', 'shutil.move', 'os.remove',
-              'os.unlink', 'shutil.copytree', 'shutil.rmtree'}
+    def opens_meta(c):
+        return is_meta_open(mfn, c) or (handed and (fs_effect_of_call(c) or '').startswith(('open(', '.write_text')))
+    mopen = [n for n in gm.nodes if any(isinstance(c, ast.Call) and opens_meta(c) for e in _heads(n) if e is not None for c in calls_in(e))]
+    for n in gm.nodes:
+        if mfn is merge or n.stmt is None or n in mopen:
+            continue
+        for e in _heads(n):
+            for c in calls_in(e) if e is not None else []:
+                effs = eff.call_fs(mfn, c)
+                if effs and any(gm.reaches(mo.id, n.id, edge_ok=normal) for mo in mopen):
+                    ctx.ob('C10-R3', mfn, f'{effs[0]} happens before the metadata file is written', False,
+                           'this step can run after the metadata file announced the store complete', line=n.line)
+    for mo in mopen:
+        wstmt = mo.stmt
+        if isinstance(wstmt, ast.With):
+            handles = {i.optional_vars.id for i in wstmt.items if isinstance(i.optional_vars, ast.Name)}
+            inner = [c for s in wstmt.body for c in calls_in(s)]
+            ok = all(call_name(c).split('.')[0] == 'json' or _is_log(c) or
+                     (isinstance(c.func, ast.Attribute) and c.func.attr in ('write', 'flush') and isinstance(c.func.value, ast.Name)
+                      and c.func.value.id in handles) for c in inner)
+            ctx.ob('C10-R3', mfn, f'metadata body only serialises: {[call_name(c) for c in inner]}', ok,
+                   'only the dump inside the metadata write' if ok else
+                   'other work happens while the metadata file is open', line=wstmt.lineno, nontrivial=False)
+
+    # R4 relocation by rename only; nothing is deleted or copied once inputs have been moved
     renames = 0
+    destructive = []
     for fn in closure(prog, [merge]):
-        if fn.qualname in ('TrajectoryStore.__init__',):
-            pass
         for c in calls_in(fn.node):
             cn = call_name(c)
-            if cn in ('os.rename', 'os.replace'):
+            if cn in ('os.rename', 'os.replace') or (isinstance(c.func, ast.Attribute) and c.func.attr in ('rename', 'replace')
+                                                    and fn is merge and not isinstance(c.func.value, ast.Constant)
+                                                    and cn.split('.')[0] not in ('str', 're')):
                 renames += 1
-            if cn in banned or (isinstance(c.func, ast.Attribute) and c.func.attr in ('unlink',)):
-                ctx.ob('C10-R4', fn, f'relocation uses {cn}', False,
-                       'copy/delete is not atomic: an interruption can lose or duplicate an input',
-                       line=c.lineno)
+            kind = 'delete' if cn in DELETES or (isinstance(c.func, ast.Attribute) and c.func.attr in DELETE_METHODS) else \
+                'copy' if cn in COPIES else None
+            if kind:
+                destructive.append((fn, c, kind))
+    for fn, c, kind in destructive:
+        cn = call_name(c)
+        why = 'copy/delete is not atomic: an interruption can lose or duplicate an input'
+        if kind == 'delete' and fn is merge:
+            # is it reachable (handlers included) after an input has been moved?
+            cnode = next((n.id for n in g.nodes if n.stmt is not None and any(c is x for e in _heads(n) if e is not None for x in calls_in(e))), None)
+            if cnode is None:   # inside a handler body statement
+                st = stmt_of(c)
+                cnode = next(iter(g.nodes_of(st)), None)
+            moved = [f for f, effs in fs_nodes.items() if any('rename' in e or 'replace' in e for e in effs)]
+            if cnode is not None and any(g.reaches(f, cnode) for f in moved):
+                why = (f'{cn}(…) can run after the inputs have been moved into the output directory (line '
+                       f'{g.nodes[moved[0]].line}): it deletes the only copy of every input, so an interrupted merge loses all '
+                       'trajectories and cannot be retried')
+        ctx.ob('C10-R4', fn, f'relocation uses {cn}', False, why, line=c.lineno)
     ctx.floor('C10-R4', renames, 1, 'os.rename relocation sites')
     ctx.ob('C10-R4', merge, 'inputs relocated by atomic rename only', True,
            f'{renames} rename site(s), no copy/delete call in the merge closure', nontrivial=False)
     ctl = ast.parse('shutil.copy(a, b)').body[0].value
-    ctx.control('C10-R4', call_name(ctl) in banned, 'embedded `shutil.copy(a, b)` is recognised')
+    ctx.control('C10-R4', call_name(ctl) in COPIES, 'embedded `shutil.copy(a, b)` is recognised')
     ctx.stats['merge_fs_sites'] = {g.nodes[k].line: v for k, v in fs_nodes.items()}
+
+
+def _is_log(c) -> bool:
+    return call_name(c).startswith(('logger.', 'logging.', 'log.', 'print'))
 
 
 def rule_caches(ctx):
     """R5: `add` recognises a foreign schema by comparing hash(trajectory) with
     the store's prototype.  Any attribute of the container that lazily caches a
-    value derived from the data dictionary (`if self.X is None: self.X = f(self.F…)`)
-    must be reset wherever that source attribute is rebound, otherwise the schema
-    check compares stale values and a trajectory with different field sets is
-    accepted."""
+    value derived from the data dictionary (tested against None and filled in the
+    same method from other attributes) must be reset wherever that source
+    attribute is rebound, otherwise the schema check compares stale values and a
+    trajectory with different field sets is accepted."""
     prog = ctx.prog
     n = 0
-    for cls in prog.subclasses_of('Container'):
+    classes = prog.subclasses_of('Container')
+    # lazily filled attributes: None when the object is made, given a value later by some other method
+    lazy = set()
+    for cls in classes:
+        ini = cls.methods.get('__init__')
+        if ini is not None:
+            for t, st, how in stores_to(ini.node):
+                if isinstance(t, ast.Attribute) and dotted_name(t.value) == 'self' and how in ('assign', 'ann') \
+                        and isinstance(getattr(st, 'value', None), ast.Constant) and st.value.value is None:
+                    lazy.add(t.attr)
+    for cls in classes:
         for meth in cls.methods.values():
-            for x in walk_no_nested(meth.node):
-                if isinstance(x, ast.If) and isinstance(x.test, ast.Compare) and isinstance(x.test.ops[0], ast.Is) \
-                        and norm(x.test.comparators[0]) == 'None' and isinstance(x.test.left, ast.Attribute) \
-                        and norm(x.test.left.value) == 'self':
-                    cache = x.test.left.attr
-                    fills = [s_ for s_ in x.body if isinstance(s_, ast.Assign) and norm(s_.targets[0]) == f'self.{cache}']
-                    if not fills:
-                        continue
-                    sources = {a.attr for a in ast.walk(fills[0].value) if isinstance(a, ast.Attribute) and norm(a.value) == 'self'} - {cache}
-                    for src in sorted(sources):
-                        for c2 in prog.subclasses_of('Container'):
-                            for w in c2.methods.values():
-                                if w.name == '__init__':
-                                    continue
-                                writes = [st for t, st, how in stores_to(w.node) if norm(t) == f'self.{src}']
-                                if not writes:
-                                    continue
-                                n += 1
-                                resets = [st for t, st, how in stores_to(w.node) if norm(t) == f'self.{cache}'
-                                          and isinstance(getattr(st, 'value', None), ast.Constant) and st.value.value is None]
-                                ok = bool(resets)
-                                ctx.ob('C10-R5', w, f'self.{src} rebound → cached self.{cache} invalidated', ok,
-                                       f'`self.{cache} = None` in the same method' if ok else
-                                       (f'{meth.qualname} caches a value derived from self.{src} in self.{cache}, but {w.qualname} '
-                                        f'rebinds self.{src} without resetting the cache: the schema comparison in '
-                                        'TrajectoryStore.add sees the stale value and accepts a trajectory whose field sets differ'),
-                                       line=writes[0].lineno)
+            if meth.name == '__init__':
+                continue
+            for cache in sorted(lazy):
+                fills = [st for t, st, how in stores_to(meth.node) if norm(t) == f'self.{cache}' and how in ('assign', 'ann')
+                         and not (isinstance(st.value, ast.Constant) and st.value.value is None)]
+                if not fills:
+                    continue
+                sources = set()
+                for st in fills:
+                    work = [st.value]
+                    seen = set()
+                    while work:
+                        e = work.pop()
+                        for a in ast.walk(e):
+                            if isinstance(a, ast.Attribute) and dotted_name(a.value) == 'self' and a.attr != cache:
+                                sources.add(a.attr)
+                            elif isinstance(a, ast.Name) and a.id not in seen:
+                                seen.add(a.id)
+                                for d in local_defs(meth.node, a.id):
+                                    v = getattr(d, 'value', None)
+                                    if isinstance(v, ast.expr):
+                                        work.append(v)
+                for src in sorted(sources):
+                    for c2 in classes:
+                        for w in c2.methods.values():
+                            if w.name == '__init__':
+                                continue
+                            writes = [st for t, st, how in stores_to(w.node) if norm(t) == f'self.{src}']
+                            if not writes:
+                                continue
+                            n += 1
+                            resets = [st for t, st, how in stores_to(w.node) if norm(t) == f'self.{cache}'
+                                      and (how == 'del' or isinstance(getattr(st, 'value', None), ast.Constant) and st.value.value is None)]
+                            ok = bool(resets)
+                            ctx.ob('C10-R5', w, f'self.{src} rebound → cached self.{cache} invalidated', ok,
+                                   f'`self.{cache} = None` in the same method' if ok else
+                                   (f'{meth.qualname} caches a value derived from self.{src} in self.{cache}, but {w.qualname} '
+                                    f'rebinds self.{src} without resetting the cache: the schema comparison in '
+                                    'TrajectoryStore.add sees the stale value and accepts a trajectory whose field sets differ'),
+                                   line=writes[0].lineno)
     ctx.floor('C10-R5', n, 1, 'cache/source writer pairs in Container')
     hs = prog.cls('storage/container.py', 'Container').methods.get('__hash__')
     if hs is not None:
@@ -504,16 +877,17 @@ def rule_eviction(ctx):
     removers = []
     raises = []
     for n in g.nodes:
-        if n.stmt is None or n.kind != 'stmt':
+        if n.stmt is None or n.kind in ('finally', 'dispatch', 'join', 'except'):
             continue
-        if isinstance(n.stmt, ast.Raise):
+        if n.kind == 'stmt' and isinstance(n.stmt, ast.Raise):
             raises.append(n)
             continue
-        for c in calls_in(n.stmt):
-            cn = call_name(c)
-            if cn.split('.')[-1] in ('popitem', 'pop', 'clear', '__delitem__') or cn.startswith('super().'):
-                removers.append((n, cn))
-        if isinstance(n.stmt, ast.Delete):
+        for e in _heads(n):
+            for c in calls_in(e) if e is not None else []:
+                cn = call_name(c)
+                if cn.split('.')[-1] in ('popitem', 'pop', 'clear', '__delitem__') or cn.startswith('super().'):
+                    removers.append((n, cn))
+        if n.kind == 'stmt' and isinstance(n.stmt, ast.Delete):
             removers.append((n, 'del'))
     ctx.floor('C10-R6', len(raises), 1, 'eviction refusals in TrajectoryCache.popitem')
     ctx.floor('C10-R6/remove', len(removers), 1, 'removals in TrajectoryCache.popitem')
@@ -522,7 +896,7 @@ def rule_eviction(ctx):
         ok = not late
         ctx.ob('C10-R6', fi, f'`{norm(r.stmt)[:60]}` is decided before any removal', ok,
                'nothing has been taken out of the cache when the eviction is refused' if ok else
-               (f'`{late[0][1]}(…)` (line {late[0][0].line}) has already removed the least recently used trajectory when the '
+               (f'`{late[0][1]}(…)` (line {int(late[0][0].line)}) has already removed the least recently used trajectory when the '
                 'eviction is refused: the add that overflowed an in-memory store is rejected, yet an earlier trajectory is gone '
                 'and cannot be reloaded'), line=r.line)
 
